@@ -33,6 +33,15 @@ def cases(rng, tier):
         ts = L.probe_times(rng, 12, cyclic=True)
         seq = [rng.choice("cccps") + str(rng.choice(ts)) for _ in range(24)]
         yield ("light h %s %s" % (hexs(prog), ",".join(seq)), label)
+    # loops nested deeper than the four supported levels: what a refused level does is outside C02's domain, but the
+    # answers still must not depend on earlier seeks: one player with a history against fresh players, C against C, at
+    # instants that are never the start of a command (t = 7 mod 20: commands start at multiples of 20 ms)
+    for label, prog in L.special_programs(rng, thorough, deep=True):
+        if label != "deep-nesting":
+            continue
+        ts = [20 * rng.randint(0, 400) + 7 for _ in range(10)] + [7, 27, 1007]
+        seq = [rng.choice("cccp") + str(rng.choice(ts)) for _ in range(30)]
+        yield ("light x %s %s" % (hexs(prog), ",".join(seq)), "deep-nesting-history")
     for i in range(8000 if thorough else 700):
         prog = L.rand_program(rng, maxdepth_cap=4)
         cyc = L.has_cycle(prog)
@@ -47,6 +56,9 @@ def cases(rng, tier):
 
 
 def compare(case, om, oi):
+    if case.startswith("light x "):
+        bad = [t for t in oi.split(" ") if ":X" in t]
+        return None if not bad else "answer of a player with a history differs from a fresh player's (C against C): %s" % bad[0]
     return compare_light(case, om, oi)
 
 
